@@ -7,4 +7,6 @@ CONSTANTS BlockLists = {"b1"}
           ForcedBeh <- BehFull
           SchedBeh <- BehSched
           FileBeh <- BehFile
+          SetURLBeh <- BehNone
+          SetURLAsIs = FALSE
 INVARIANTS InvCoherent
